@@ -9,7 +9,9 @@ import shutil
 import subprocess
 import sys
 
-wt, name, ids = sys.argv[1], sys.argv[2], sys.argv[3:]
+args = [a for a in sys.argv[1:] if a != "--tests"]
+RUN_TESTS = "--tests" in sys.argv[1:]     # also re-run the pinned suite on the changed tree (13-15 min)
+wt, name, ids = args[0], args[1], args[2:]
 out = os.path.join(wt, "out")
 HERE = os.path.dirname(os.path.dirname(os.path.abspath(__file__)))   # the /verif tree (or snapshot) whose checks run
 dst = os.path.join("/verif/seeded", name)
@@ -36,6 +38,9 @@ for f in ("patch.diff", "demo.py", "meta.json"):
 meta = json.load(open(os.path.join(dst, "meta.json"))) if os.path.exists(os.path.join(dst, "meta.json")) else {}
 meta["confirmed"] = {"demo_exit_with_change": r_with, "demo_exit_without_change": r_without,
                      "tests": meta.get("tests", "see agent report")}
+if RUN_TESTS:
+    t = sh("/venv/bin/python -m pytest -q -p no:cacheprovider --timeout=900 2>&1 | tail -3", env=env, cwd=wt, timeout=7200)
+    meta["confirmed"]["tests_rerun_by_seed_eval"] = t.stdout.strip().split("\n")[-1][:200]
 res = {}
 for pid in ids:
     p = sh(f"./check {pid}", cwd=HERE, env=dict(os.environ, PYDREX_REPO=wt), timeout=3600)
